@@ -253,9 +253,9 @@ func main() {
 		senders()
 		c.Cases("scn", len(scenarios()), runScenario)
 		c.Cases("live", c.N(8, 32), runLiveness)
-		c.Cases("seq", c.N(2000, 100000), func(k *mon.Case) { runRandomSeq(k, c, false) })
-		c.Cases("ilv", c.N(600, 30000), func(k *mon.Case) { runRandomSeq(k, c, true) })
-		c.Cases("conc", c.N(16, 320), func(k *mon.Case) { concInvariants(c, k) })
-		c.Cases("lin", c.N(34, 1680), func(k *mon.Case) { concLinearizable(c, k) })
+		c.Cases("seq", c.N(4000, 150000), func(k *mon.Case) { runRandomSeq(k, c, false) })
+		c.Cases("ilv", c.N(1500, 50000), func(k *mon.Case) { runRandomSeq(k, c, true) })
+		c.Cases("conc", c.N(32, 480), func(k *mon.Case) { concInvariants(c, k) })
+		c.Cases("lin", c.N(80, 2000), func(k *mon.Case) { concLinearizable(c, k) })
 	})
 }
